@@ -34,6 +34,20 @@ def oracle(ctx, specs, k, rnd, dups):
             return ctx.fail("C05/" + e.kind, [specs, k, "aliased"], f"{e} ; inferred {show(Tsh)} for {specs} with equal sub-containers shared as one object (k={k})")
         except Exception:
             pass
+    # the merge over call traces (one trace per value), as stub generation performs it
+    try:
+        vt = [vals.build(s) for s in specs]
+        merged = tinfer.infer_via_traces(vt, k)
+    except Exception:
+        merged = None
+    if merged is not None and vs:
+        for pos, Tm in zip(("argument", "return", "yield"), merged):
+            try:
+                witnessed(Tm, vt)
+            except NotTight as e:
+                return ctx.fail("C05/" + e.kind, [specs, k, "via-traces"], f"{e} ; merged over call traces ({pos} position): {show(Tm)} for {specs} (k={k})")
+    if "twin" in repr(specs):
+        return  # two classes that print alike cannot both be found again by module + qualname
     # the merge as the pipeline performs it: on per-value types that went through the store encoding
     vs2 = [vals.build(s) for s in specs]
     try:
